@@ -366,3 +366,8 @@ Proof. vm_compute. split; reflexivity. Qed.
 Example C04_nonvacuous_equivalence_presence : forall e v,
   interp_eqv e None (Some v) = false /\ interp_eqv e (Some v) None = false.
 Proof. intros [|f] v; split; reflexivity. Qed.
+
+(* Print Assumptions for every theorem above that did not have its own line yet *)
+Print Assumptions C04_event_time_v0_refuted.
+Print Assumptions C04_value_pull_raw_last_v0_refuted.
+Print Assumptions C04_oldnew_v0_refuted.
